@@ -1,4 +1,5 @@
 import GrmVerif.Lemmas.LRError
+import GrmVerif.Lemmas.Viable
 import GrmVerif.Props.C01
 /-!
 # C04 — a syntax error is reported at the first lexeme that cannot continue a sentence
@@ -69,5 +70,89 @@ theorem error_at_end_not_sentence (G : Grammar) (A : Automaton) (hc : check G A 
   have hc' : fuel' + fuel = fuel + fuel' := Nat.add_comm _ _
   rw [hc', e1] at e2
   cases e2
+
+/-- **Everything before the error is a prefix of a sentence** (viable-prefix half). On an automaton
+that passes `check` and `checkVP` (closed states hold only items of the closure of their core; every
+rule of the grammar is productive — the hypothesis of the property), an error reported at position `i`
+means that the `i` lexemes consumed so far can be completed to a sentence. No lookahead condition
+is needed: the LR driver never SHIFTS a lexeme that leaves the viable prefixes. -/
+theorem error_prefix_is_viable (G : Grammar) (A : Automaton) (hc : check G A = true)
+    (hvp : checkVP G A = true) (w : List Nat) (hw : InputOk G w) (fuel i st : Nat)
+    (h : parse G A w fuel = .error i st) :
+    ∃ v, InputOk G (w.take i ++ v) ∧ Sentence G (w.take i ++ v) := by
+  have P := check_props G A hc
+  have PV := checkVP_props G A hvp
+  obtain ⟨S, hS⟩ := P.startShape
+  have key : ∀ (fuel : Nat) (c : Cfg), Inv G A w c → run G A w fuel c = .error i st →
+      ∃ v, InputOk G (w.take i ++ v) ∧ Sentence G (w.take i ++ v) := by
+    intro fuel
+    induction fuel with
+    | zero => intro c _ h; simp [run] at h
+    | succ k ih =>
+      intro c hinv h
+      simp only [run] at h
+      cases hs : step G A w c with
+      | cont c' => rw [hs] at h; exact ih c' ((step_inv P hw hinv).1 c' hs) h
+      | done o =>
+        rw [hs] at h; simp only at h; subst h
+        have hi := (step_laidx c).2 i st hs
+        obtain ⟨pstack, astack, laidx⟩ := c
+        obtain ⟨hpath, htrees, hyield, _⟩ := hinv
+        simp only at hpath htrees hyield hi
+        subst hi
+        cases pstack with
+        | nil => cases hpath
+        | cons s rest =>
+          obtain ⟨p, d, hitem⟩ := path_top_item P hpath
+          have hslt : s < A.nstates := hpath.states_lt P s (by simp)
+          have hp : p < G.nprods := by
+            obtain ⟨it, him, hip, _⟩ := hitem
+            have := (P.itemOk s hslt it (List.mem_append_left _ him)).1
+            omega
+          obtain ⟨v, hv, hctx⟩ := viable P PV S hS hpath s rest rfl p d hitem
+          obtain ⟨us, huv, hum, huok⟩ := tail_trees P PV hp d
+          obtain ⟨T, hT, hr, hy⟩ := hctx astack us htrees rfl huv hum
+          refine ⟨Tree.yieldList us ++ v, ?_, T, S, hT, hS, hr, ?_⟩
+          · intro t ht
+            rcases List.mem_append.mp ht with ht | ht
+            · exact hw t (List.mem_of_mem_take ht)
+            · rcases List.mem_append.mp ht with ht | ht
+              · exact huok t ht
+              · exact hv t ht
+          · rw [hy, hyield, List.append_assoc]
+  exact key fuel (init A) (inv_init w) h
+
+/-- **The error position is characterised by the language alone**: under all three certificate
+parts it is the unique `i` such that the first `i` lexemes are a prefix of a sentence and the first
+`i + 1` are not (or the input ends there). Hence any two certified automata of a grammar report
+their error at the same lexeme (used by C02). -/
+theorem error_position_unique (G : Grammar) (A B : Automaton)
+    (hcA : check G A = true) (hcB : check G B = true) (hvB : checkVP G B = true)
+    (An : Analyses) (hAn : analyses G = some An)
+    (hlaA : checkLA G A (An.nullable.contains ·) (An.first.contains ·) = true)
+    (w : List Nat) (hw : InputOk G w) (f1 f2 i j s1 s2 : Nat)
+    (h1 : parse G A w f1 = .error i s1) (h2 : parse G B w f2 = .error j s2) : j ≤ i := by
+  -- if A's error came first (i < j) then B's viable prefix w[0..j) contains w[0..i], contradicting A
+  by_cases hij : j ≤ i
+  · exact hij
+  · exfalso
+    have hjle : j ≤ w.length := one_error_no_value G B hcB w hw f2 j s2 h2
+    obtain ⟨v, hok, hsent⟩ := error_prefix_is_viable G B hcB hvB w hw f2 j s2 h2
+    have hi : i < w.length := by omega
+    refine error_not_premature G A hcA An hAn hlaA w f1 i s1 hi h1 ⟨(w.take j).drop (i + 1) ++ v, ?_, ?_⟩
+    · have : w.take (i + 1) ++ ((w.take j).drop (i + 1) ++ v) = w.take j ++ v := by
+        rw [← List.append_assoc]
+        congr 1
+        have : w.take (i + 1) = (w.take j).take (i + 1) := by
+          rw [List.take_take]; congr 1; omega
+        rw [this, List.take_append_drop]
+      rw [this]; exact hok
+    · have : w.take (i + 1) ++ ((w.take j).drop (i + 1) ++ v) = w.take j ++ v := by
+        rw [← List.append_assoc]
+        congr 1
+        have : w.take (i + 1) = (w.take j).take (i + 1) := by
+          rw [List.take_take]; congr 1; omega
+        rw [this, List.take_append_drop]
+      rw [this]; exact hsent
 
 end GrmVerif.C04
